@@ -43,6 +43,8 @@ def run(ctx):
     for c in (nested + rest[:: max(1, len(rest) // 1500)])[:4000 if ctx.tier == 'quick' else 40000]:
         cc = ['LIST', 'cp' + c[1], c[2] + 'copy'] + c[3:]
         copies.append(cc); by_id[cc[1]] = c
+        ca = ['LIST', 'ab' + c[1], c[2] + 'abandon'] + c[3:]      # built after a list that was started and never ended
+        copies.append(ca); by_id[ca[1]] = c
     for t in ('(l (i 10) (l (i 20) (i 30)) (p (s 7) (i 40)))', '(l (l (l (i 1)) (i 2)) (p (s 7) (l (i 3) (p (s 8) (i 4)))))', '(cat (l (i 1) (l (i 2) (i 3))) (l (p (s 7) (i 4))))'):
         for st in ('simple', 'basic'):
             q = 'len items nth:0 nth:1 nth:2 nth:3 sym:7 sym:8 acc:0 acc:1 acc:2 accs:7'
@@ -51,7 +53,7 @@ def run(ctx):
     ci = vlib.run_impl(copies, 'c16copy', per_case_s=5.0)
     ncopy = 0
     for cc in copies:
-        if not cc[2].endswith('copy'):
+        if not (cc[2].endswith('copy') or cc[2].endswith('abandon')):
             continue
         o = by_id[cc[1]]
         ro = impl.get(o[1]) if o[1] in impl else ci.get(o[1])
@@ -61,7 +63,7 @@ def run(ctx):
         if ro is None or ro.startswith('SETUP-ERR') or ro.startswith('BAD-CASE'):
             continue
         if rc != ro:
-            ctx.fail('oracle', cc, impl=rc, model=None, expect=ro, note=f'a copy of the value made with helpers::clone_data answers the queries differently from the original ({cc[2]}): {cc[3][:120]}')
+            ctx.fail('oracle', cc, impl=rc, model=None, expect=ro, note=(f'a copy of the value made with helpers::clone_data answers the queries differently from the original ({cc[2]}): {cc[3][:120]}' if cc[2].endswith('copy') else f'a list built after another list was started and never ended answers the queries differently ({cc[2]}): {cc[3][:120]}'))
     ctx.evaluations += len(copies)
     ctx.suites = dict(ctx.suites or {}, **{'LIST.copies (helpers::clone_data)': ncopy})
     # paths: a list applied to / accessed with a symbol list follows the keys and indexes one after the other, each step in
